@@ -38,6 +38,8 @@ var verifC20Contexts = []string{
 	"a ", "a b", "a $b", "a $b[", "a @b[", "a $b[{", "a \"", "a '", "a (", "a {", "a %[", "a %{", "a %(", "a <",
 	"a -> ", "a | b ", "a = ", "a #", "a /#", "a ${", "a @{", "a $(", "a \\", "a: ", "a b=", "$a = ", "a ? b ", "a && ", "a; ",
 	"a \"$(", "a [", "a [[", "a *", "a ~", "%[", "%{a:", "a <b> ", "1 + ", "a => ", "a \u00e9", "\u00e9 ", "a \"\u00e9", "a #\u00e9",
+	// commands whose parameters are parsed differently (variable names instead of values, ...)
+	"set ", "unset ", "export ", "global ", "!set ", "is-null x ", "foreach ", "formap ", "set a=", "if ", "function f ", "test ", "alias a=",
 }
 
 // verifC20Tail: like verifC20Input plus carriage return (non-ASCII runes appear in contexts only:
